@@ -486,4 +486,14 @@ def c01_h(ctx: Ctx):
     return out
 
 
-RULES = [c01_a, c01_b, c01_c, c01_d, c01_e, c01_f, c01_g, c01_h]
+@rule("C01-i")
+def c01_i(ctx: Ctx):
+    """A schema import files a directory only under the state point its own state point file holds (from C16-n)."""
+    from .c16 import c16_n
+    res = c16_n(ctx)
+    for r in res:
+        r.rule = "C01-i"
+    return res
+
+
+RULES = [c01_a, c01_b, c01_c, c01_d, c01_e, c01_f, c01_g, c01_h, c01_i]
